@@ -1,5 +1,6 @@
 import VelaVerif.Lemmas.Sem
 import VelaVerif.Lemmas.Pool
+import VelaVerif.Lemmas.Exec
 /-!
 # C01 — the compiled model computes the same function as the source model
 
@@ -20,7 +21,7 @@ Theorems here are about the machinery that executes:
   reference accumulator on the whole tensor when the receptive-field equations of C10 hold.
 -/
 namespace VelaVerif.Props.C01
-open VelaVerif.Requant VelaVerif.TfliteRef VelaVerif.Lemmas.Sem VelaVerif.Lemmas.Pool VelaVerif.Tiling
+open VelaVerif.Requant VelaVerif.TfliteRef VelaVerif.Lemmas.Sem VelaVerif.Lemmas.Pool VelaVerif.Lemmas.Exec VelaVerif.Tiling VelaVerif.NpuSem VelaVerif.Footprint VelaVerif.Decode
 
 /-! ## Tiling -/
 
@@ -316,5 +317,78 @@ example :
     (List.range 3).map (fun oy => ((NpuSem.windowVals 4 4 (fun y x => ifm (2 + y) x) 3 3 1 1 0 1 oy 2).foldl max (-128))) =
     (List.range 3).map (fun oy => TfliteRef.poolMax 6 4 ifm 3 3 1 1 1 1 (3 + oy) 2 (-128)) := by
   decide
+
+/-! ## The executor's loops and the accumulators
+
+`NpuSem.execBlock` gathers the IFM box (`gatherList`: element `(y, x, c)` read at `Footprint.fmAddr`), computes the OFM
+values of a convolution block with `NpuSem.convValues`, applies the activation to each and scatters them. The theorems
+below tie the list/array formulation to the per-element accumulators `NpuSem.convAcc` / `NpuSem.dwAcc` that
+`conv_stripe_eq` / `dw_stripe_eq` relate to the reference. -/
+
+/-- **The executor's convolution loop computes, at NHWC index `(oy * ow + ox) * od + oc`, the scaled accumulator of
+    that position and channel.** -/
+theorem convValues_get (H W C : Nat) (ifmAt : Nat → Nat → Nat → Int) (kh kw : Nat) (wAt : Nat → Nat → Nat → Nat → Int)
+    (sy sx dy dx pt pl : Nat) (zp ozp : Int) (rounding : Rounding) (recs : Array ScaleRec) (oh ow od oy ox oc : Nat)
+    (hy : oy < oh) (hx : ox < ow) (hc : oc < od) :
+    (convValues false H W C ifmAt kh kw wAt sy sx dy dx pt pl zp ozp rounding recs oh ow od)[(oy * ow + ox) * od + oc]? =
+      some (npuScale rounding
+        (NpuSem.convAcc H W C ifmAt kh kw (fun ky kx ic => wAt oc ky kx ic) sy sx dy dx pt pl zp oy ox + (recs.getD oc default).bias)
+        (recs.getD oc default).scale (recs.getD oc default).shift + ozp) := by
+  unfold convValues
+  rw [nested_range_get oh ow od _ oy ox oc hy hx hc]
+  simp
+
+theorem dwValues_get (H W C : Nat) (ifmAt : Nat → Nat → Nat → Int) (kh kw : Nat) (wAt : Nat → Nat → Nat → Nat → Int)
+    (sy sx dy dx pt pl : Nat) (zp ozp : Int) (rounding : Rounding) (recs : Array ScaleRec) (oh ow od oy ox oc : Nat)
+    (hy : oy < oh) (hx : ox < ow) (hc : oc < od) :
+    (convValues true H W C ifmAt kh kw wAt sy sx dy dx pt pl zp ozp rounding recs oh ow od)[(oy * ow + ox) * od + oc]? =
+      some (npuScale rounding
+        (NpuSem.dwAcc H W (fun y x => ifmAt y x oc) kh kw (fun ky kx => wAt oc ky kx 0) sy sx dy dx pt pl zp oy ox + (recs.getD oc default).bias)
+        (recs.getD oc default).scale (recs.getD oc default).shift + ozp) := by
+  unfold convValues
+  rw [nested_range_get oh ow od _ oy ox oc hy hx hc]
+  simp
+
+
+/-- **`gather` reads element `(y, x, c)` of the box at `fmAddr fm y x c`**: if the gather succeeds, its NHWC index
+    `(y * W + x) * C + c` holds exactly what `readElem` returns at that address -/
+theorem gatherList_get (m : Mem) (fm : FM) (l : List Int) (h : gatherList m fm = .ok l) (y x c : Nat)
+    (hy : y < fm.height) (hx : x < fm.width) (hc : c < fm.depth) :
+    ∃ v, l[(y * fm.width + x) * fm.depth + c]? = some v ∧
+      m.readElem fm.region (fmAddr fm y x c) fm.elemBytes fm.signed = .ok v := by
+  unfold gatherList at h
+  have ⟨_, hg⟩ := mapM_except_get _ _ l h
+  exact hg _ (y, x, c) (coords3_get fm.height fm.width fm.depth y x c hy hx hc)
+
+
+theorem gather_getD (m : Mem) (fm : FM) (l : List Int) (h : gatherList m fm = .ok l) (y x c : Nat)
+    (hy : y < fm.height) (hx : x < fm.width) (hc : c < fm.depth) :
+    l.toArray.getD ((y * fm.width + x) * fm.depth + c) 0 = memFm m fm y x c := by
+  obtain ⟨v, h1, h2⟩ := gatherList_get m fm l h y x c hy hx hc
+  unfold memFm
+  rw [h2]
+  simp [Array.getD_eq_getD_getElem?, h1]
+
+/-- **decoded block → accumulator**: for a convolution block without IFM upscaling, whose IFM box was gathered
+    successfully, the value the executor computes for OFM element `(oy, ox, oc)` (before the activation clamp) is the scaled
+    `convAcc` over the *memory contents* at the addresses `fmAddr` gives for the IFM registers -/
+theorem conv_block_values (m : Mem) (fm : FM) (l : List Int) (hg : gatherList m fm = .ok l)
+    (kh kw : Nat) (wAt : Nat → Nat → Nat → Nat → Int) (sy sx dy dx pt pl : Nat) (zp ozp : Int) (rounding : Rounding)
+    (recs : Array ScaleRec) (oh ow od oy ox oc : Nat) (hy : oy < oh) (hx : ox < ow) (hc : oc < od) :
+    (convValues false fm.height fm.width fm.depth (fun y x c => l.toArray.getD ((y * fm.width + x) * fm.depth + c) 0)
+        kh kw wAt sy sx dy dx pt pl zp ozp rounding recs oh ow od)[(oy * ow + ox) * od + oc]? =
+      some (npuScale rounding
+        (NpuSem.convAcc fm.height fm.width fm.depth (memFm m fm) kh kw (fun ky kx ic => wAt oc ky kx ic) sy sx dy dx pt pl zp oy ox +
+          (recs.getD oc default).bias)
+        (recs.getD oc default).scale (recs.getD oc default).shift + ozp) := by
+  rw [convValues_get _ _ _ _ _ _ _ _ _ _ _ _ _ _ _ _ _ oh ow od oy ox oc hy hx hc]
+  rw [convAcc_congr_inrange fm.height fm.width fm.depth _ (memFm m fm)
+    (fun y x c h1 h2 h3 => gather_getD m fm l hg y x c h1 h2 h3)]
+
+/-- non-vacuity: a 2x2x1 block with a 1x1 kernel of weight 3, scale record (bias 1, scale 2^30, shift 30): index 3 holds
+    `(ifm(1,1,0) - zp) * 3 + 1` -/
+example :
+    (convValues false 2 2 1 (fun y x _ => (y * 2 + x : Nat)) 1 1 (fun _ _ _ _ => 3) 1 1 1 1 0 0 1 0 .tfl
+      #[{ bias := 1, scale := 1073741824, shift := 30 }] 2 2 1)[(1 * 2 + 1) * 1 + 0]? = some ((3 - 1) * 3 + 1) := by decide
 
 end VelaVerif.Props.C01
